@@ -320,6 +320,8 @@ class Schema(dict, metaclass=LogicalMeta):
                 f"Attempt to set immutable attribute: [{repr(field.attname)}]"
             )
 
+        # a declared __init__ may assign before anything was parsed: resolve pending references like parse() does
+        self.__parser__.resolve_forward_refs()
         context = self.__parser__.make_context(force_error=True)
         value = field.parse_value(value, context=context)
 
